@@ -389,12 +389,12 @@ Proof.
   rewrite E. destruct d. unfold decl_cable. destruct rg as [[h l]|]; reflexivity.
 Qed.
 
-(* "wire [h:l] a, b, c": the range and the attributes go to the FIRST name only (open finding V06-shared-range) *)
+(* "wire [h:l] a, b, c": the range goes to EVERY name, the attributes to the first name only *)
 Theorem wire_decl_spec ty rg attrs names d d' : NoDup names ->
   (forall n, In n names -> has_glob n = false /\ find_cable n d = None) -> rg_wf rg ->
   wire_decl ty rg attrs names d = Ok d' ->
   exists n rest, names = n :: rest /\
-    d' = set_cables d (ed_cables d ++ decl_cable ty rg attrs n :: map (decl_cable ty None []) rest).
+    d' = set_cables d (ed_cables d ++ decl_cable ty rg attrs n :: map (decl_cable ty rg []) rest).
 Proof.
   intros Nd Hn W H. unfold wire_decl in H. destruct names as [|n rest]; [discriminate|].
   apply bind_ok in H. destruct H as (d1 & H1 & H2). exists n, rest. split; [reflexivity|].
@@ -402,17 +402,17 @@ Proof.
   inversion Nd as [|? ? Hnot Nd']; subst.
   pose proof (wire_decl_one_spec ty rg attrs n d d1 G F W H1) as E1.
   assert (Gen : forall l a b, NoDup l -> (forall m, In m l -> has_glob m = false /\ find_cable m a = None) ->
-                fold_res (wire_decl_one ty None []) l a = Ok b -> b = set_cables a (ed_cables a ++ map (decl_cable ty None []) l)).
+                fold_res (wire_decl_one ty rg []) l a = Ok b -> b = set_cables a (ed_cables a ++ map (decl_cable ty rg []) l)).
   { induction l as [|m l IH]; intros a b Ndl Hl Hf; cbn [fold_res] in Hf.
     - inversion Hf; subst. cbn. rewrite app_nil_r. destruct b; reflexivity.
     - inversion Ndl as [|? ? Hm Ndl']; subst.
       apply bind_ok in Hf. destruct Hf as (a1 & Ha1 & Hf). destruct (Hl m (or_introl eq_refl)) as [Gm Fm].
-      pose proof (wire_decl_one_spec ty None [] m a a1 Gm Fm Logic.I Ha1) as Ea1.
+      pose proof (wire_decl_one_spec ty rg [] m a a1 Gm Fm W Ha1) as Ea1.
       rewrite (IH a1 b Ndl'); [|  |exact Hf].
       + rewrite Ea1. cbn [ed_cables set_cables map]. rewrite <- app_assoc. reflexivity.
       + intros x Hx. destruct (Hl x (or_intror Hx)) as [Gx Fx]. split; [exact Gx|].
         rewrite Ea1. unfold find_cable. cbn [ed_cables set_cables]. apply find_idx_app_none2; [exact Fx|].
-        cbn. apply str_eqb_neq. intro E. subst. contradiction. }
+        unfold decl_cable. destruct rg as [[h l0]|]; cbn; apply str_eqb_neq; intro E; subst; contradiction. }
   rewrite (Gen rest d1 d' Nd'); [| |exact H2].
   - rewrite E1. cbn [ed_cables set_cables]. rewrite <- app_assoc. reflexivity.
   - intros x Hx. destruct (Hn x (or_intror Hx)) as [Gx Fx]. split; [exact Gx|].
